@@ -61,7 +61,11 @@ def r1_pairing(idx, r):
         and inc is not None and norm(inc.value) == "1" and isinstance(inc.op, ast.Add) and inc.lineno > rot_c.lineno
     r.require(ok, "convert:nth-image-rotated-by-n-times-angle", cv, node=rot_c, msg="the n-th image (n = 1, 2) is rotated by n x 2pi/(number of images + 1)")
     sid = idx.method(HEX, "_getSymmetricIdenticalsThird")
-    lst = next((s for s in iter_stores(sid.node) if s.attr == "identicals" and isinstance(s.value, ast.List)), None)
+    from ..astutil import returned_values
+    from types import SimpleNamespace
+    lst = next((SimpleNamespace(value=v, stmt=nd) for v, nd in returned_values(sid.node) if isinstance(v, ast.List) and len(v.elts) == 2), None)
+    if lst is None:
+        raise AnalysisError("_getSymmetricIdenticalsThird: list of two images expected")
     E = ExprEval(env={"i": I, "j": J}, opaque=False)
     U = unit_steps(idx)
     for n, t in enumerate(lst.value.elts, 1):
